@@ -1,6 +1,6 @@
 (** ImportPost.v — after a successful resolution, what hasUnresolvedImports() looks for is there (C07). *)
 From Coq Require Import String Ascii List Bool Arith Lia.
-From LC Require Import ImportDefs ImportSpec ImportProofs.
+From LC Require Import ImportDefs ImportSpec ImportProofs ImportGuard.
 Import ListNotations.
 Local Open Scope string_scope.
 Local Open Scope list_scope.
@@ -322,9 +322,6 @@ Section Tests.
   Hypothesis Hurank : forall o cm url sm url', octx o cm -> In url (import_urls cm) ->
     fs_model fs (key_of o url) = Some sm -> In url' (import_urls sm) -> urank url' < urank url.
 
-  (* 85ba0d4: the guard hasUnitsCycle stays silent (trivially so for the code before that commit) *)
-  Hypothesis Hsilent : forall o cm u, octx o cm -> In u (m_units cm) -> guarded fx st m0 o cm u = false.
-
   (* history of performTestWithHistory at an entity of the model [cm] owned by [o] *)
   Definition tinv (o : owner) (cm : model) (hist : list epoch) : Prop :=
     match o with
@@ -516,12 +513,12 @@ Section Tests.
     intros fuel Hf. cbn [units_used]. rewrite (E1 fuel Hf), (E2 fuel Hf). reflexivity.
   Qed.
 
-  Lemma uref_test_ok : forall o cm x, good_uref o cm x -> octx o cm ->
+  Lemma uref_test_ok : forall o cm x, good_uref o cm x -> octx o cm -> content st m0 o = Some cm ->
     exists N, forall fuel, N <= fuel -> uref_test fx fuel RESOLVED st m0 o cm x = Ok true.
   Proof.
-    intros o cm [mu|n] Hg Hoc; [|exists 0; reflexivity]. destruct Hg as (Hin & Ht).
+    intros o cm [mu|n] Hg Hoc Hct; [|exists 0; reflexivity]. destruct Hg as (Hin & Ht).
     destruct (units_test_ok _ _ _ Ht) as (N & HN). exists N. intros fuel Hf. cbn [uref_test].
-    rewrite (Hsilent o cm mu Hoc Hin).
+    rewrite (TU_guard_silent st m0 fx o cm mu Ht Hct Hin).   (* 85ba0d4: the guard is silent on resolved units *)
     rewrite (HN fuel Hf [] (tinv_nil o cm) Hoc Hin). reflexivity.
   Qed.
 
@@ -533,15 +530,15 @@ Section Tests.
   Qed.
 
   (* Component::isResolved() succeeds where the links are in place *)
-  Lemma comp_test_ok : forall o cm c, TC st o cm c -> octx o cm -> In c (all_comps cm) ->
+  Lemma comp_test_ok : forall o cm c, TC st o cm c -> octx o cm -> content st m0 o = Some cm -> In c (all_comps cm) ->
     exists N, forall fuel, N <= fuel -> forall hist, tinv o cm hist ->
       comp_test fx fuel RESOLVED st m0 o cm hist c = Ok true.
   Proof.
     intros o cm c HT.
     induction HT as [o cm n sid url ref used kids sm ic Hl Hf Hi IH Hkids IHkids | o cm n used kids HU Hk IH];
-      intros Hoc Hin.
+      intros Hoc Hct Hin.
     - destruct (linked_fs _ _ _ _ Hl) as (Hfm & Hget).
-      destruct (IH Hfm (find_comp_sub _ _ _ Hf)) as (N & HN).
+      destruct (IH Hfm Hget (find_comp_sub _ _ _ Hf)) as (N & HN).
       destruct (list_bound (fun k fuel => forall hist, tinv o cm hist ->
                                comp_test fx fuel RESOLVED st m0 o cm hist k = Ok true) kids) as (Nk & HNk).
       { intros k Hkin. apply IHkids; auto. eapply kids_child_comps; eauto. }
@@ -643,10 +640,9 @@ Section PostTheorem.
 
   Lemma resolve_true_post : forall fuel st st',
     cons fs st -> resolve_imports fuel strict fs st m0 = Ok (true, st') ->
-    GuardSilent fs fx st' m0 ->    (* 85ba0d4: hasUnitsCycle finds no cycle (trivial for the code before that commit) *)
     exists N, forall fuel', N <= fuel' -> has_unresolved_imports fx fuel' st' m0 = Ok false.
   Proof.
-    intros fuel st st' Hc E Hsilent. unfold resolve_imports in E.
+    intros fuel st st' Hc E. unfold resolve_imports in E.
     destruct (resolve_loop (fun st u => fetch_units fuel strict fs m0 st None [] u) (fun u => ItUnits None (uname u))
                            (imported_units m0) true (clear_origin_links (clear_issues st)))
       as [[b1 st1]| |] eqn:E1; try discriminate.
@@ -702,13 +698,13 @@ Section PostTheorem.
           assert (Hall : In c (all_comps m0)) by (unfold all_comps; apply in_flat_map; exists c; split; [exact Hcin|apply subcomps_self]).
           assert (Hsub : incl (subcomps c) (all_comps m0)).
           { intros x Hx. unfold all_comps. apply in_flat_map. exists c. split; assumption. }
-          destruct (comp_test_ok fs m0 st' fx rank urank Hpop Hc' Hrank Hnt Hntf Hurl0 Hurl Hurank Hsilent _ _ _ (TCall c Hsub) eq_refl Hall)
+          destruct (comp_test_ok fs m0 st' fx rank urank Hpop Hc' Hrank Hnt Hntf Hurl0 Hurl Hurank _ _ _ (TCall c Hsub) eq_refl eq_refl Hall)
             as (N & HN). exists N. intros fuel' Hf. apply HN; [exact Hf|reflexivity]. }
         exists (Nu + Ncm). intros fuel' Hf. unfold has_unresolved_imports, model_test.
         rewrite (all_ok_const (unit_step (fun u => if guarded fx st' m0 None m0 u then Ok false
                                                    else res_map fst (units_test fx fuel' RESOLVED st' m0 None m0 [] u)))
                               (m_units m0) tt).
-        2:{ intros u Hu. unfold unit_step. rewrite (Hsilent None m0 u eq_refl Hu).
+        2:{ intros u Hu. unfold unit_step. rewrite (TU_guard_silent st' m0 fx None m0 u (TUall u Hu) eq_refl Hu).
             rewrite (HNu fuel' ltac:(lia) u Hu). reflexivity. }
         rewrite (all_ok_const (unit_step (comp_test fx fuel' RESOLVED st' m0 None m0 [])) (m_comps m0) tt).
         2:{ intros c Hcin. unfold unit_step. rewrite (HNc fuel' ltac:(lia) c Hcin). reflexivity. }
@@ -728,7 +724,6 @@ Lemma resolve_true_post_partial : forall fs strict m0 fx (rank urank : string ->
      fs_model fs (key_of o url) = Some sm -> In url' (import_urls sm) -> urank url' < urank url) ->
   OriginShallow m0 ->
   forall fuel st st', cons fs st -> resolve_imports fuel strict fs st m0 = Ok (true, st') ->
-  GuardSilent fs fx st' m0 ->
   exists N, forall fuel', N <= fuel' -> has_unresolved_imports fx fuel' st' m0 = Ok false.
 Proof. intros. eapply resolve_true_post; eauto. Qed.
 
